@@ -8,7 +8,7 @@ HERE = os.path.dirname(os.path.dirname(os.path.abspath(__file__)))
 
 def run(job, work):
     tool = job.get('tool', 'pyvc')   # pyvc: WP + Z3 (policer.py);  pyglue: typestate checker for the client glue
-    interp = 'python3-vt' if tool == 'pyvc' else 'python3'
+    interp = 'python3' if tool == 'pyglue' else 'python3-vt'
     r = subprocess.run([interp, os.path.join(HERE, 'tools', tool + '.py')], stdout=subprocess.PIPE, stderr=subprocess.PIPE, text=True)
     try:
         d = json.loads(r.stdout)
